@@ -49,6 +49,20 @@ SOLVER_NOTE = TB + ('the objective is an oracle (arbitrary stream of finite valu
                     '(reals, non-NaN binary64); depq.DEPQ modelled as a stable descending list; pow() results taken from the implementation\'s own calls; '
                     'the evolvent, scipy and listeners are outside this model.')
 CHECKS.update({
+    'C10': dict(
+        text='Proved once (Coq, reals): Rastrigin and XSquared in EVERY dimension have value 0 at the origin, no lower point and no other minimiser; the generic Hill and Shekel functions are differentiable with the stated derivatives. '
+             'Per instance, regenerated from the Calculate sources and tables on every run (closed forms obtained by symbolic evaluation of the source, tied by reflexivity to the generic family on that table): '
+             'value at the declared point within 1e-4, global lower bound with the 2e-3 slack over the whole continuous box, and strict separation of everything outside the 0.5% neighbourhood - closed by the interval tactic '
+             '(kernel-checked interval arithmetic): quick = seeded sample of Hill/Shekel + all Shekel4; thorough = all 1000+1000+3. Formula-vs-Calculate comparison at random points; multistart numeric search on every family '
+             '(incl. Grishagin, GKLS, StronginC3 objective) for a concrete lower point.',
+        design='5 C10', note=TB + 'coq-interval + Coquelicot and the standard-library real-number axioms (listed in evidence); decimal table literals used as written; GKLS structure is claimed under C14; Grishagin and the constrained StronginC3 statement are covered by numeric search only (partial).',
+        technique='Rocq proof: closed-form theorems for all dimensions + per-instance interval-arithmetic proofs generated from the source'),
+    'C18': dict(
+        text='Metadata: constructors of the parametric families modelled and proved well-formed for every dimension n >= 1; for the finite families every instance is constructed and the dump is checked by the kernel (forallb wf_meta). '
+             'Tables: per row, regenerated from the source on every run: tabulated minimum and maximum values within 1e-4 (value at the tabulated location + global bound), derivative sign on both sides of each tabulated extremiser at 1e-4 of the range and separation beyond 0.5%, '
+             '|f\'| <= 1.001 L on the whole range and a witness with |f\'| >= 0.999 L, f\' being the derivative by the family theorem (hill_derive / shekel_derive) and the reflexivity tie. quick = seeded rows, thorough = all 2 x 1000.',
+        design='5 C18', note=TB + 'coq-interval + Coquelicot + real-number axioms; the final mean-value step combining the location lemmas is not restated in Coq.',
+        technique='Rocq proof: kernel-evaluated metadata predicate + per-row interval proofs generated from the tables'),
     'C05': dict(
         text='Theorems: every evolvent image lies strictly inside any box lower<upper for N in 2..5 and every density (N=1 affine); for ANY local optimiser that respects the bounds it is given, '
              'the refinement step evaluates only inside the box, returns a point inside it, reports the objective value at the returned point and never a worse value than the start. '
